@@ -629,8 +629,8 @@ def c04(case: dict, cv: CallView, out: list) -> dict:
             tb = tb.tb_next
         if not names or names[-1] != "op_body":
             out.append(("C04:traceback", f"traceback of the re-raised exception does not end in the operation: {names[-4:]}"))
-        if x.__cause__ is not None:
-            out.append(("C04:cause-substituted", f"__cause__ of the re-raised exception was set to {x.__cause__!r}"))
+        if x.__cause__ is not getattr(x, "_orig_cause", None):
+            out.append(("C04:cause-substituted", f"__cause__ of the re-raised exception was changed to {x.__cause__!r}"))
         return info
     # RetryExhaustedError expected
     if f["via"] != "raise" or f["type"] != "RetryExhaustedError" or f.get("idx") is not None:
